@@ -29,7 +29,7 @@ ASSUMPTIONS = ["refproto readings are transcribed from the vendor PDFs and valid
                "a payload the repo rejects (any exception / leftover bytes) is allowed by the "
                "property and not counted as decided",
                "structurally inconsistent payloads (reference rejects) are undecided"]
-REQUIRED_OBS = ["decoded_and_compared", "layouts_seen", "na_sentinel_payloads", "stride_gt_known"]
+REQUIRED_OBS = ["same_data_announced_differently", "decoded_and_compared", "layouts_seen", "na_sentinel_payloads", "stride_gt_known"]
 BUDGET = {"quick": 100, "thorough": 1500}
 
 # layout name -> (gen, typ, prefix, record length(s) baselines builder)
@@ -272,6 +272,19 @@ def run_case(case):
             if st > known and cnt > 0 and d:
                 obs["stride_gt_known"] = obs.get("stride_gt_known", 0) + 1
             n += 1
+            # the very same data bytes announced differently right afterwards (half as many
+            # records twice as long): a reading of its own
+            if cnt >= 2 and cnt % 2 == 0:
+                data = b"".join(recs)
+                st2, cnt2 = 2 * st, cnt // 2
+                payload2 = R.c0(sub, st2, [data[i * st2:(i + 1) * st2] for i in range(cnt2)])
+                d2 = judge(5, 0xC0, payload2, {0x21: "at5.zone_status", 0x23: "at5.ac_status10",
+                                               0x33: "at5.timer_status"}[sub], viol, obs)
+                dec += d2
+                n += 1
+                if d2:
+                    obs["same_data_announced_differently"] = obs.get(
+                        "same_data_announced_differently", 0) + 1
         sample = {"strides": "known..known+6", "n": case["n"]}
     obs["decoded_and_compared"] = dec
     if k in ("random", "stride"):
